@@ -30,6 +30,7 @@ RULE_TEXT = (
     'another under a different PYTHONHASHSEED and later clock. Non-trivial = '
     'the project has at least one Meta feature or relation; distinct = '
     'distinct canonical JSON of the model specs.')
+RULE_TEXT += ' Also: non-ASCII table / column names (40%), legacy version-1 pickled signatures, signatures re-read after an executed upgrade (explicit None attributes).'
 ASSUMPTIONS = [
     'values reachable from model definitions only (directly constructed '
     'signatures are out of reach of this technique, see DESIGN section 7)',
